@@ -309,12 +309,21 @@ func GenProject(t *rapid.T, o Opts) Project {
 		a, b, c := &g.sigs[0], &g.sigs[1], &g.sigs[2]
 		if a.kind == "Class" && b.kind == "Class" && a.role == "main" && b.role == "main" && c.role == "main" && c.kind == "Class" {
 			order := rapid.Permutation([]int{0, 1, 2}).Draw(t, "triplePkgs")
-			a.pkg, b.pkg, c.pkg = pkgs[order[0]], pkgs[order[1]], pkgs[order[2]]
-			b.name = a.name
-			for _, x := range []*classSig{a, b, c} {
-				x.path = strings.ReplaceAll(x.pkg, ".", "/") + "/" + x.name + ".java"
+			ref := rapid.IntRange(0, 1).Draw(t, "tripleRef")
+			// the re-packaged triple must not collide with a class generated later
+			taken := map[string]bool{}
+			for k := 3; k < len(g.sigs); k++ {
+				taken[g.sigs[k].full()] = true
 			}
-			g.mustRef = map[int]int{2: rapid.IntRange(0, 1).Draw(t, "tripleRef")}
+			na, nb, nc := pkgs[order[0]]+"."+a.name, pkgs[order[1]]+"."+a.name, pkgs[order[2]]+"."+c.name
+			if !taken[na] && !taken[nb] && !taken[nc] && c.name != a.name {
+				a.pkg, b.pkg, c.pkg = pkgs[order[0]], pkgs[order[1]], pkgs[order[2]]
+				b.name = a.name
+				for _, x := range []*classSig{a, b, c} {
+					x.path = strings.ReplaceAll(x.pkg, ".", "/") + "/" + x.name + ".java"
+				}
+				g.mustRef = map[int]int{2: ref}
+			}
 		}
 	}
 	for i := range g.sigs {
